@@ -6,6 +6,7 @@ import (
 
 	"github.com/cronokirby/saferith"
 	"github.com/fxamacker/cbor/v2"
+	"github.com/taurusgroup/multi-party-sig/internal/cborutil"
 	"github.com/taurusgroup/multi-party-sig/internal/types"
 	"github.com/taurusgroup/multi-party-sig/pkg/math/curve"
 	"github.com/taurusgroup/multi-party-sig/pkg/paillier"
@@ -78,12 +79,12 @@ func (c *Config) UnmarshalBinary(data []byte) error {
 		ECDSA:   c.Group.NewScalar(),
 		ElGamal: c.Group.NewScalar(),
 	}
-	if err := cbor.Unmarshal(data, &cm); err != nil {
+	if err := cborutil.Unmarshal(data, cm); err != nil {
 		return fmt.Errorf("config: %w", err)
 	}
 
 	// check ECDSA, ElGamal
-	if cm.ECDSA.IsZero() || cm.ElGamal.IsZero() {
+	if cm.ECDSA == nil || cm.ElGamal == nil || cm.ECDSA.IsZero() || cm.ElGamal.IsZero() {
 		return errors.New("config: ECDSA or ElGamal secret key is zero")
 	}
 
@@ -103,7 +104,7 @@ func (c *Config) UnmarshalBinary(data []byte) error {
 			ECDSA:   c.Group.NewPoint(),
 			ElGamal: c.Group.NewPoint(),
 		}
-		if err := cbor.Unmarshal(pm, p); err != nil {
+		if err := cborutil.Unmarshal(pm, p); err != nil {
 			return fmt.Errorf("config: party %s: %w", p.ID, err)
 		}
 		if _, ok := ps[p.ID]; ok {
@@ -112,6 +113,10 @@ func (c *Config) UnmarshalBinary(data []byte) error {
 
 		// handle our own key separately
 		if p.ID == cm.ID {
+			// N is recomputed from our primes, but S and T are taken from the encoding
+			if err := pedersen.ValidateParameters(paillierSecret.PublicKey.N(), p.S, p.T); err != nil {
+				return fmt.Errorf("config: party %s: %w", p.ID, err)
+			}
 			ps[p.ID] = &Public{
 				ECDSA:    cm.ECDSA.ActOnBase(),
 				ElGamal:  cm.ElGamal.ActOnBase(),
